@@ -119,6 +119,7 @@ type Runner struct {
 	breakEnclosing, contnEnclosing int
 
 	inLoop       bool
+	loopDepth    int // number of enclosing loops, to cap break and continue levels
 	inFunc       bool
 	inSource     bool
 	handlingTrap bool // whether we're currently in a trap callback
